@@ -1210,6 +1210,7 @@ func ruleLALR7(c *Ctx) {
 //   - Add(a) under the path fact len(beta) == 0 (FIRST(a) = {a}),
 //   - a memo lookup whose key contains the item's lookahead (beta is fixed by (Prod, Dot), a by
 //     Lookahead: a key without Lookahead returns another item's set whenever beta is nullable).
+//
 // Any other source is reported.
 func checkLookaheadSources(c *Ctx, rule string, pk *packages.Package, fd *ast.FuncDecl, firstCall *ast.CallExpr) {
 	p := c.Prog
